@@ -287,8 +287,9 @@ func (g *genCtx) genParams(t *rapid.T, cur *App, max int) []Param {
 // IntentOpts switches optional generator features on (they draw *after* everything else, so the
 // default generator's draw sequence is unchanged).
 type IntentOpts struct {
-	Mixins bool // single-level mixins of ~abstract apps
-	Subs   bool // subscriptions 'Src -> Ev' to events of applications declared earlier
+	Mixins     bool // single-level mixins of ~abstract apps
+	Subs       bool // subscriptions 'Src -> Ev' to events of applications declared earlier
+	Collectors bool // '.. * <- *' blocks merging attributes into endpoints and call statements
 }
 
 func GenIntent(t *rapid.T) *Intent { return GenIntentOpt(t, IntentOpts{}) }
@@ -346,6 +347,57 @@ func GenIntentOpt(t *rapid.T, opts IntentOpts) *Intent {
 					ep.Stmts = g.genStmts(t, a, 1, 3)
 				}
 				a.Eps = append(a.Eps, ep)
+			}
+		}
+	}
+	if opts.Collectors {
+		for _, a := range in.Apps {
+			if rapid.IntRange(0, 2).Draw(t, "hascollector") != 0 {
+				continue
+			}
+			type cand struct{ line CollectorLine }
+			var cands []CollectorLine
+			seen := map[string]bool{}
+			for _, ep := range a.Eps {
+				if ep.Kind == "simple" || ep.Kind == "event" {
+					cands = append(cands, CollectorLine{Kind: "ep", EpName: ep.Name})
+				}
+			}
+			addCalls := func(ss []*Stmt) {
+				walkStmts(ss, func(s *Stmt, _ int) {
+					if s.Kind != "call" || strings.Contains(s.Endpoint, " /") {
+						return
+					}
+					k := appKey(s.Target) + " <- " + s.Endpoint
+					if !seen[k] {
+						seen[k] = true
+						cands = append(cands, CollectorLine{Kind: "call", Target: s.Target, Endpoint: s.Endpoint})
+					}
+				}, 0)
+			}
+			for _, ep := range a.Eps {
+				addCalls(ep.Stmts)
+			}
+			restMethods(a.Rest, 0, func(ep *Endpoint, _ int) { addCalls(ep.Stmts) })
+			if len(cands) == 0 {
+				continue
+			}
+			n := rapid.IntRange(1, 3).Draw(t, "ncollectorlines")
+			used := map[int]bool{}
+			for i := 0; i < n; i++ {
+				k := rapid.IntRange(0, len(cands)-1).Draw(t, "collectortarget")
+				if used[k] {
+					continue
+				}
+				used[k] = true
+				l := cands[k]
+				for len(l.Meta.Tags) == 0 && len(l.Meta.Attrs) == 0 {
+					l.Meta = genMeta(t, false)
+					if len(l.Meta.Tags) == 0 && len(l.Meta.Attrs) == 0 {
+						l.Meta.Tags = []string{pick(t, tagPool, "collectortag")}
+					}
+				}
+				a.Collector = append(a.Collector, l)
 			}
 		}
 	}
